@@ -80,7 +80,7 @@ func runC07(p *core.Program, r *core.Report) {
 	// R7.5
 	eff := core.GetEff(p)
 	n := 0
-	for _, ef := range eff.Summary[ent] {
+	for _, ef := range eff.Writes(ent) {
 		n++
 		r.Fail("R7.5", core.FuncName(ent), ef.What+" -> "+ef.Root.String(), p.InstrPos(ef.Instr), "Entropy() modifies state that outlives the call: later calls may differ")
 	}
